@@ -169,17 +169,22 @@ def handle_quic_packet(packet: Packet, keylog, quic_sessions: list[QuicSession],
             return
 
     # other paths (connection migration): match by connection ID; a zero-length connection ID identifies nothing
-    for session in quic_sessions:
-        if header_type == QuicHeaderType.LONG:
+    if header_type == QuicHeaderType.LONG:
+        for session in quic_sessions:
             if dcid and (dcid in session.client_cids or dcid in session.server_cids):
                 session.handle_packet(packet, dcid, quic_version)
                 return
-        else:
-            # match by checking all known cid lengths for session, longest first (one cid may be a prefix of another)
-            for cid in sorted(session.client_cids | session.server_cids, key=lambda c: (-len(c), c)):
-                if cid and cid == packet_payload[1:1 + len(cid)]:
-                    session.handle_packet(packet, cid, quic_version)
-                    return
+    else:
+        # a short header does not say how long its connection ID is: the longest known connection ID of ANY session that the
+        # packet starts with wins (a short ID of one connection easily equals the first bytes of another connection's longer ID)
+        best = None
+        for session in quic_sessions:
+            for cid in session.client_cids | session.server_cids:
+                if cid and cid == packet_payload[1:1 + len(cid)] and (best is None or len(cid) > len(best[1])):
+                    best = (session, cid)
+        if best is not None:
+            best[0].handle_packet(packet, best[1], quic_version)
+            return
 
     if header_type != QuicHeaderType.SHORT:
         new_session = QuicSession(packet, server_ports, keylog, portmap, keep_original_ports)
